@@ -184,6 +184,8 @@ fn construct(signed: &Value, signers: &[usize], keyspecs: &[KeySpec], builder_pa
 pub struct CeremonyOutcome {
     /// the edited signed part is another JSON value than the original, yet both canonicalize to the same bytes
     pub canon_collision: Option<String>,
+    /// key ids (lower case) whose genuine signature is listed under the id re-spelled in upper-case hex
+    pub recased: Vec<String>,
     pub unsignable: Option<String>,
     /// text after the wire and the channel faults
     pub text: String,
@@ -264,6 +266,7 @@ pub fn run_ceremony(t: &CeremonyTrace) -> CeremonyOutcome {
 pub fn finish(t: &CeremonyTrace, p: &Prepared) -> CeremonyOutcome {
     let mut out = CeremonyOutcome {
         canon_collision: None,
+        recased: vec![],
         unsignable: p.unsignable.clone(),
         text: String::new(),
         sig_truth: vec![],
@@ -351,7 +354,14 @@ pub fn finish(t: &CeremonyTrace, p: &Prepared) -> CeremonyOutcome {
         for s in a {
             let id = s["keyid"].as_str().unwrap_or("").to_string();
             let sv = s["sig"].as_str().unwrap_or("").to_string();
-            out.sig_truth.push((id.clone(), content_same && orig_pairs.contains(&(id, sv))));
+            let exact = content_same && orig_pairs.contains(&(id.clone(), sv.clone()));
+            // (the genuine signature under its key id in upper-case hex: whether key ids are compared with
+            // regard to letter case is left open — it counts for that key in the "only if" direction, the
+            // weakest reading, and not in the converse)
+            if !exact && content_same && id.chars().any(|c| c.is_ascii_uppercase()) && orig_pairs.contains(&(id.to_ascii_lowercase(), sv)) {
+                out.recased.push(id.to_ascii_lowercase());
+            }
+            out.sig_truth.push((id.clone(), exact));
         }
     }
     let mut auth: Vec<PublicKey> = t.authorized.iter().map(|k| keys::key(t.keys[*k]).public.clone()).collect();
@@ -452,11 +462,14 @@ pub fn judge_ceremony(t: &CeremonyTrace, o: &CeremonyOutcome) -> Vec<Finding> {
     }
     let once = per_label.values().all(|n| *n <= 1) && t.mem_sigdup.is_empty();
     let enough = t.threshold >= 1 && counting.len() as u64 >= t.threshold as u64;
+    let mut counting_lenient: BTreeSet<&String> = counting.clone();
+    counting_lenient.extend(o.recased.iter().filter(|id| auth_ids.contains(*id)));
+    let enough_lenient = t.threshold >= 1 && counting_lenient.len() as u64 >= t.threshold as u64;
     let any_ok = o.results.iter().any(|r| r.is_ok());
     let all_ok = o.results.iter().all(|r| r.is_ok());
     match t.mode {
         Mode::C04 => {
-            if any_ok && !enough {
+            if any_ok && !enough_lenient {
                 f.push(Finding {
                     prop: "C04".into(),
                     clause: "threshold-not-met-but-accepted".into(),
@@ -483,7 +496,7 @@ pub fn judge_ceremony(t: &CeremonyTrace, o: &CeremonyOutcome) -> Vec<Finding> {
                     detail: format!("threshold {} = number of signers, results {:?}", t.threshold, o.results),
                 });
             }
-            if !positive && any_ok && !enough {
+            if !positive && any_ok && !enough_lenient {
                 f.push(Finding {
                     prop: "C09".into(),
                     clause: "signature-verifies-under-substitution".into(),
